@@ -68,7 +68,9 @@ public:
     void Run(u64 cycles) {
         idle = false;
         for (u64 i = 0; i < cycles; ++i) {
-            if (idle) {
+            // Fast-forward the idle loop only while no interrupt signal is waiting to be latched: a signal
+            // raised by the Tick that ended the previous cycle must be looked at in this very cycle
+            if (idle && !HasPendingInterruptSignal()) {
                 u64 skipped = core_timing.Skip(cycles - i - 1);
                 i += skipped;
 
@@ -149,6 +151,11 @@ public:
 
             core_timing.Tick();
         }
+    }
+
+    bool HasPendingInterruptSignal() const {
+        return interrupt_pending[0] || interrupt_pending[1] || interrupt_pending[2] ||
+               vinterrupt_pending;
     }
 
     void SignalInterrupt(u32 i) {
